@@ -979,13 +979,15 @@ theorem root_stable_per_storage (sel : StoreSel) (b : Blob) :
 example : (((Disks.empty.step codeOrder .own ⟨⟨1, 100⟩, none⟩)).sel .own).store .rootCrt = some (.cert 0 0 (1 + rootLife)) := by decide
 
 /-- the selection `Disks.sel` models is the one in the tree, and the whole start-up program runs on the selected
-    storage: CA.Provision assigns `ca.storage` twice (the CA's own module, else `ctx.Storage()`), and every storage
-    operation of package caddypki — the two loads and two stores each of root and intermediate — has the receiver
-    `ca.storage` (regenerated fact `Gen/CAStorage.lean`; one operation on another receiver would split a CA's files
-    over two storages, which `Event.run` on ONE `Disk` could not express) -/
+    storage: CA.Provision assigns the CA's storage field twice — its own module if one is configured, else
+    `ctx.Storage()` — and NO storage operation of package caddypki has a receiver that does not resolve, by data flow
+    (method receiver's field, locals assigned from it, parameters every call site fills with it — whatever the
+    helpers and locals are called), to that field; the package asks a context for its storage once (in Provision)
+    and never names the default storage (regenerated fact `Gen/CAStorage.lean`; one operation elsewhere would
+    split a CA's files over two storages, which `Event.run` on ONE `Disk` could not express) -/
 theorem ca_storage_selection_matches_source :
-    Gen.caStorageAssigns = ["cmStorage", "ctx.Storage()"] ∧
-    Gen.caStorageOps = ["ca.go:Load:ca.storage", "ca.go:Load:ca.storage", "ca.go:Store:ca.storage", "ca.go:Store:ca.storage",
-                        "ca.go:Load:ca.storage", "ca.go:Load:ca.storage", "ca.go:Store:ca.storage", "ca.go:Store:ca.storage"] := by decide
+    Gen.caStorageAssigns = ["ca.StorageRaw!=nil => cmStorage", "ca.storage==nil => ctx.Storage()"] ∧
+    Gen.caStorageOpsElsewhere = 0 ∧ Gen.caStorageOpKinds = ["Load", "Store"] ∧
+    Gen.caContextStorageCalls = 1 ∧ Gen.caDefaultStorageMentions = 0 := by decide
 
 end CaddyModel.C14
